@@ -603,6 +603,9 @@ class Expander:
                 spec["desugar_try"] = True
             elif k == "desugar_for":
                 spec["desugar_for"] = True
+            elif k == "rename_ident":
+                a, b = split_sub(w[1])
+                spec.setdefault("renames", []).append((a, b))
             elif k == "loop":
                 n = int(w[1])
                 d = spec["loops"].setdefault(n, {})
@@ -614,6 +617,7 @@ class Expander:
             self.skipped.append("%s (%s): `mut self` receiver unsupported by Verus" % (fnid, rel))
             return
         line = src.count("\n", 0, it.kw_start) + 1
+        fn_seg0 = len(self.out.segs)
         # attributes of the fn (filtered) + extra attrs
         for a in spec["attrs"]:
             self.out.add("    " + a + "\n", ("tmpl", fnid, "attr"))
@@ -730,6 +734,25 @@ class Expander:
                         raise LostAnchor("%s: cannot desugar `?` in %s: %s" % (rel, fnid, e))
                     cnt += n
             self.rewrites.append("%s: %d `?` in %s desugared to match/return Err(From::from(e)) (rustc's own desugaring for Result)" % (rel, cnt, fnid))
+        for a, b in spec.get("renames", []):
+            # alpha-renaming of a local identifier (all occurrences that are not field/method/path segments)
+            n = 0
+            for sg in self.out.segs[fn_seg0:]:
+                if sg.origin[0] in ("repo", "rewrite") and re.search(r"\b%s\b" % re.escape(a), sg.text):
+                    toks2 = rlex.lex(sg.text)
+                    out2, pos2 = [], 0
+                    prev = None
+                    for t2 in toks2:
+                        if t2.kind in rlex.TRIVIA:
+                            continue
+                        if t2.kind == "ident" and t2.text == a and not (prev is not None and prev.text in (".", "::", "fn")):
+                            out2.append(sg.text[pos2:t2.start] + b)
+                            pos2 = t2.end
+                            n += 1
+                        prev = t2
+                    out2.append(sg.text[pos2:])
+                    sg.text = "".join(out2)
+            self.rewrites.append("%s: identifier `%s` alpha-renamed to `%s` in %s (%d occurrences; Verus cannot take a parameter named like its function)" % (rel, a, b, fnid, n))
         self.out.add("\n\n", ("tmpl", fnid))
         self.fns.append({"id": fnid, "file": rel, "line": line, "body": True, "requires": len(spec["requires"]), "ensures": len(spec["ensures"]), "clauses": ncl, "loops": len(loops)})
 
